@@ -119,7 +119,7 @@ PROPERTIES = {
         "assumptions": ["parametricity of the routing code in the attribute name: it is only compared for equality with finitely many known strings (class members, exclude / include lists, dimension names, attrs keys) and tested for a leading underscore"],
     },
     "C07": {
-        "contracts": [indexing.LocateMany, align.TakeAxis, align.ReindexAxis, (indexing.MaybeCastType, r"^[if]<-")],
+        "contracts": [indexing.LocateMany, align.TakeAxis, align.ReindexAxis, align.ReindexLike, (indexing.MaybeCastType, r"^[if]<-")],
         "level": "proof",
         "min_obligations": 500,
     },
